@@ -512,3 +512,96 @@ def check_C09(rep, scr, tier, seed):
     return rep.finish('formats from the directive grammar (every length modifier/flag/width with conversion n, escaped percent signs, second occurrences) x 24 executed entry points, sentinel words as the would-be %n targets; non-trivial = distinct (entry, model verdict, stored?, rejected?)',
                       'make -C /verif/coq Properties_C09.vo + harness/check.py C09')
 REGISTRY['C09'] = check_C09
+
+# ------------------------------------------------------------------ C14: tokenising
+def tok_reference(s, delim_seq, dmax, w):
+    """independent reading of the property: per call, skip characters of the current delimiter set, return the maximal
+    run of other characters, overwrite the delimiter that ends it; None when the string is exhausted"""
+    buf = list(s); pos = 0; out = []
+    for D in delim_seq:
+        while pos < len(buf) and buf[pos] != 0 and buf[pos] in D: pos += 1
+        if pos >= len(buf) or buf[pos] == 0:
+            out.append(None); continue
+        st = pos
+        while pos < len(buf) and buf[pos] != 0 and buf[pos] not in D: pos += 1
+        if pos < len(buf) and buf[pos] != 0:
+            buf[pos] = 0; pos += 1
+        out.append(st)
+    return out, buf
+
+def gen_tok_cases(seed, tier, consts):
+    import itertools, random
+    rng = random.Random(seed); cs = []; n = [0]
+    A, B, X, Y = 0x2c, 0x3b, 0x61, 0x62      # ',' ';' 'a' 'b'
+    sets = {'A': [A], 'AB': [A, B], 'B': [B], 'E': [], 'L16': [A] + list(range(0x30, 0x3f)), 'L17': list(range(0x41, 0x52)), 'L20': list(range(0x41, 0x55))}
+    maxlen = 5 if tier == 'quick' else 7
+    for func, w in (('strtok_seq', 1), ('wcstok_seq', 4)):
+        for L in range(0, maxlen + 1):
+            for chars in itertools.product([A, B, X, Y] if L <= 4 else [A, X, B], repeat=L):
+                if func == 'wcstok_seq' and L > 4: continue
+                for dm_rel in ('fit', 'slack', 'unterm'):
+                    if dm_rel == 'unterm' and L == 0: continue
+                    for pattern in (('A',), ('AB',), ('A', 'B'), ('E',), ('AB', 'L16'), ('L17',)):
+                        if pattern in (('E',), ('AB', 'L16'), ('L17',)) and (L not in (2, 3) or dm_rel == 'slack'): continue
+                        s = list(chars)
+                        if dm_rel == 'fit': body = s + [0]; dmax = L + 1
+                        elif dm_rel == 'slack': body = s + [0, X, A, 0x7f]; dmax = L + 4
+                        else: body = s; dmax = L                      # no terminator within dmax, flush against the guard page
+                        ncalls = L + 4
+                        seq = [pattern[i % len(pattern)] for i in range(ncalls)]
+                        dl = b''
+                        for nm in seq:
+                            d = sets[nm] + [0]; d = d + [0x7e] * (24 - len(d)); dl += fam_copy.enc(d[:24], w)
+                        n[0] += 1
+                        blocks = [('R', fam_copy.enc(body, w)), ('R', dl), ('R', b'\x33' * 16)]
+                        cs.append(vlib.Case('t%d' % n[0], func, blocks, [(0, 0), dmax, ncalls, (1, 0), (2, 0), UNK],
+                                            {'cls': 'tok', 'w': w, 'chars': s, 'dm_rel': dm_rel, 'dmax': dmax, 'seq': seq, 'sets': [sets[x] for x in seq], 'func': func}))
+    return cs
+
+def check_C14(rep, scr, tier, seed):
+    impl, consts, md = setup(rep, scr, ['O1'])
+    impl = impl['O1']; consts = consts['O1']
+    pr = proofs(rep, scr, 'C14')
+    cases = gen_tok_cases(seed, tier, consts)
+    oi, om = run_cases(rep, scr, impl, md, consts, cases, 'tok')
+    for x in cases:
+        a = oi.get(x.id); b = om.get(x.id); m = x.meta
+        rep.evals += 1; rep.count('%s/%s/%s' % (x.func, m['dm_rel'], '+'.join(sorted(set(m['seq'])))))
+        if a is None or b is None:
+            rep.violation('no outcome', {'key': 'nooutcome', 'no_failing_input': True, 'case': x.to_json()}); continue
+        rep.nontrivial.add((x.func, a.ret, m['dm_rel']))
+        if len(rep.samples) < 6 and rep.evals % 2003 == 11: rep.samples.append({'case': x.line()[:200], 'impl': a.raw[:200], 'model': b.raw[:200]})
+        fails = []
+        w = m['w']
+        if a.fault != '-': fails.append(('fault', 'sequence faulted at %s (access outside the declared %d elements)' % (a.fault, m['dmax'])))
+        else:
+            vals = [int(v) for v in a.ret.split(',')] if a.ret not in ('-', None) else []
+            trip = [tuple(vals[i:i + 3]) for i in range(0, len(vals), 3)]
+            toks = [t[0] for t in trip]
+            for (r, dm, p) in trip:
+                if p >= 0 and p + dm > m['dmax']: fails.append(('remaining-length', 'after a call *ptr offset %d + *dmaxp %d exceeds the original dmax %d' % (p, dm, m['dmax']))); break
+            if m['dm_rel'] != 'unterm':
+                ref, refbuf = tok_reference(m['chars'] + [0], m['sets'], m['dmax'], w)
+                want = [(-1 if t is None else t) for t in ref]
+                bad_delims = any(len(D) > consts['tok_delim_max'] for D in m['sets'])
+                if not bad_delims:
+                    if toks != want: fails.append(('wrong-tokens', 'tokens returned at offsets %s, the maximal delimiter-free substrings start at %s' % (toks, want)))
+                    else:
+                        after = fam_copy.dec(a.blocks[0], w)[:len(refbuf)]
+                        if after != refbuf: fails.append(('buffer', 'buffer after the sequence %s, expected only delimiter positions overwritten: %s' % (after, refbuf)))
+                    if toks[-2:] != [-1, -1] and toks == want: fails.append(('no-final-null', 'sequence does not end with null pointers'))
+            else:
+                if -1 not in toks: fails.append(('unterminated-no-error', 'unterminated string: the sequence never returned a null pointer'))
+        for kind, text in fails:
+            kid = known.classify(rep, x, a, kind, 'O1', consts)
+            if kid: rep.known_hits[kid] = rep.known_hits.get(kid, 0) + 1
+            else: rep.violation('%s: %s' % (x.func, text), {'key': (x.func, kind), 'property': 'C14', 'function': x.func, 'failure': kind, 'text': text,
+                                'case': x.to_json(), 'case_line': x.line(), 'impl_outcome': a.raw, 'model_outcome': b.raw})
+        if not fails and (a.ret, a.blocks, a.handlers, a.fault != '-') != (b.ret, b.blocks, b.handlers, b.fault != '-'):
+            rep.mismatches.append((x, a, b, 'O1'))
+    report_proofs(rep, pr, 'C14')
+    report_mismatches(rep, 'T1 (call sequences)')
+    rep.trusted = TRUSTED_COMMON
+    return rep.finish('every string over {delimiter1, delimiter2, letter, letter} of length 0..N x dmax = strlen+1 / strlen+4 / unterminated (flush against a guard page) x delimiter-set schedules (constant, alternating, empty, 16 and 17 characters) x call sequences of strlen+4 calls, narrow and wide; non-trivial = distinct (function, result sequence, dmax class)',
+                      'make -C /verif/coq Properties_C14.vo + harness/check.py C14')
+REGISTRY['C14'] = check_C14
